@@ -392,7 +392,7 @@ class ExceptionInfo:
         value, and traceback, as returned by :func:`sys.exc_info`. See
         also :meth:`from_current`.
         """
-        type_str = exc_type.__name__
+        type_str = exc_type.__qualname__
         type_mod = exc_type.__module__
         if type_mod not in ("__main__", "__builtin__", "exceptions", "builtins"):
             type_str = f'{type_mod}.{type_str}'
@@ -586,7 +586,7 @@ def format_exception_only(etype, value):
     if etype is None:
         return [_format_final_exc_line(etype, value)]
 
-    stype = etype.__name__
+    stype = etype.__qualname__
     smod = etype.__module__
     if smod not in ("__main__", "builtins", "exceptions"):
         stype = smod + '.' + stype
